@@ -5,8 +5,11 @@
    discipline (InPlace = shipped code, AtomicRename = repaired code) and the os.access answers.
    A history is any list of labels: LSpawn (a load starts), LStep (one process advances one step -- arbitrary
    interleaving), LCrash (a process disappears before its next step), LEdit (the model file changes).
-   `quiet` only restricts LEdit: not while a load of that file sits between its parse and its write-hash
-   (refines_unguarded_refuted shows the restriction is necessary: the code reads the model file three times). *)
+   w_rehash w = true models code whose _write_in_cache takes the cache key from a third read of the model file
+   (before the repair "hash the parsed bytes"); false models the repaired code (key = hash of the parsed bytes).
+   `quiet` only restricts LEdit, and only when w_rehash w = true: not while a load of that file sits between its
+   parse and its write-hash (load_refines_parse_unguarded_refuted: for re-hashing code the restriction is necessary;
+   load_refines_parse_full: for the repaired code no restriction is needed). *)
 From Coq Require Import List Arith Bool.
 From OV Require Import Model.Cache Proofs.Cache.
 Import ListNotations.
@@ -18,7 +21,7 @@ Proof. intros w s0 ls s HI HQ HR. assert (Inv w s) by (eapply run_inv; eauto). s
 Print Assumptions cache_content_keyed.
 
 Theorem cache_content_keyed_step :
-  forall w s l s', Inv w s -> guard s l -> step w s l = Some s' -> Inv w s'.
+  forall w s l s', Inv w s -> guard w s l -> step w s l = Some s' -> Inv w s'.
 Proof. exact step_inv. Qed.
 Print Assumptions cache_content_keyed_step.
 
@@ -33,7 +36,12 @@ Theorem load_refines_parse : refines_stmt true.
 Proof. exact refines_guarded. Qed.
 Print Assumptions load_refines_parse.
 
-(* 2b. full strength (edits at any time) is false of the faithful model: the three reads are not atomic *)
+(* 2a. full strength -- edits at any time, no side condition -- for code that keys the cache by the parsed bytes *)
+Theorem load_refines_parse_full : refines_full_stmt.
+Proof. exact refines_full. Qed.
+Print Assumptions load_refines_parse_full.
+
+(* 2b. full strength is false of code that hashes the file again for the write (three reads are not atomic) *)
 Theorem load_refines_parse_unguarded_refuted : ~ refines_stmt false.
 Proof. exact refines_unguarded_refuted. Qed.
 Print Assumptions load_refines_parse_unguarded_refuted.
@@ -64,6 +72,31 @@ Print Assumptions no_partial_visible.
 Theorem atomic_later_run_ok : later_run_ok_stmt AtomicRename.
 Proof. exact Proofs.Cache.atomic_later_run_ok. Qed.
 Print Assumptions atomic_later_run_ok.
+
+(* 4b. the repaired code (AtomicRename, key = hash of the parsed bytes): every history whatsoever -- edits at any
+       time, every crash point, racing writers -- keeps the invariant, never raises, shows nothing partial, and a
+       later run completes with the parse of the current content *)
+Theorem current_code_safe :
+  forall nch g e s0 ls s, 0 < nch ->
+    let w := mkSetup nch g AtomicRename e false in
+    Inv w s0 -> run w s0 ls = Some s ->
+    Inv w s /\ (NoRaise s0 -> NoRaise s) /\ (NoPartial w s0 -> NoPartial w s).
+Proof. exact Proofs.Cache.current_code_safe. Qed.
+Print Assumptions current_code_safe.
+
+Theorem current_code_later_run_ok :
+  forall nch g e s0 ls s pid pa, 0 < nch ->
+    let w := mkSetup nch g AtomicRename e false in
+    Inv w s0 -> run w s0 ls = Some s -> procs s pid = None ->
+    outcome_of (load w s pid pa false) pid = ODone (parse g (yaml s pa)).
+Proof. exact Proofs.Cache.current_code_later_run_ok. Qed.
+Print Assumptions current_code_later_run_ok.
+
+Example edit_race_harmless_without_rehash :
+  let s := run_skip wA1n (empty_state y0) (hist_edit_race ++ repeat (LStep 1) 12) in
+  outcome_of s 0 = ODone (parse gI 7) /\ outcome_of s 1 = ODone (parse gI 8) /\
+  observe wA1n s (Comp 0 0 7) = OComplete (parse gI 7) /\ observe wA1n s (Comp 0 0 8) = OComplete (parse gI 8).
+Proof. exact Proofs.Cache.edit_race_harmless_without_rehash. Qed.
 
 (* 5. InPlace (the shipped code): the same statement is false; witnesses: a writer killed after the truncate makes
       every later load raise; without any crash, a reader between a writer's truncate and close raises *)
